@@ -103,19 +103,46 @@ def _theta_tensor(case, key):
                 else:
                     assert max(abs(float(lp[j][i][c]) - want[c]) / (1 + abs(want[c])) for c in range(len(pi))) < 1e-11, \
                         "oracle: log_softmax(logits) = log p (exact rational)"
-    return th.clone().requires_grad_(True)
+    return _param_layout(th.clone(), case.get("playout"))
+
+
+def _param_layout(th, layout):
+    """robustness audit: the same parameter values as a NON-CONTIGUOUS tensor that is part of the autograd graph (a view of a
+    larger leaf: gradients are taken with respect to the view).  step = every second cell of the last axis, off = interior of
+    a larger buffer (storage offset), tct = column-major strides"""
+    if layout == "step":
+        big = torch.full(list(th.shape[:-1]) + [2 * th.shape[-1] + 1], 0.5, dtype=th.dtype)
+        big[..., 1::2] = th
+        return big.requires_grad_(True)[..., 1::2]
+    if layout == "off":
+        big = torch.full([n + 2 for n in th.shape], 0.5, dtype=th.dtype)
+        sl = tuple(slice(1, 1 + n) for n in th.shape)
+        big[sl] = th
+        return big.requires_grad_(True)[sl]
+    if layout == "tct" and th.dim() >= 2:
+        return th.transpose(0, -1).contiguous().requires_grad_(True).transpose(0, -1)
+    return th.requires_grad_(True)
 
 
 def _mkdist(case, th, independent=True):
     D = torch.distributions
     kw = {case["param"]: th}  # th: [B, n] (bern) or [B, n, V]
+    va = {"validate_args": True} if case.get("validate") else {}
     if case["dtype"] == "bern":
-        base = D.Bernoulli(**kw)
+        base = D.Bernoulli(**kw, **va)
     elif case["dtype"] == "cat":
-        base = D.Categorical(**kw)
+        base = D.Categorical(**kw, **va)
     else:
-        base = D.OneHotCategorical(**kw)
-    return D.Independent(base, 1) if independent else base
+        base = D.OneHotCategorical(**kw, **va)
+    return D.Independent(base, 1, **va) if independent else base
+
+
+def _ctor(case, cls, pos, kw):
+    """construct an estimator through positional or (case['ctor'] == 'kw') keyword arguments: `pos` lists (name, value) in the
+    documented order"""
+    if case.get("ctor") == "kw":
+        return cls(**dict(pos), **kw)
+    return cls(*[v for _, v in pos], **kw)
 
 
 def _sample_tensor(case, tup, B, lead=None):
@@ -269,7 +296,10 @@ def est_run_impl(case):
                 cvm = (dist.log_prob(allb).exp() * _Table(case, "c", th, phi)(allb)).sum(0)
                 if is_log:
                     cvm = cvm.log() + S
-            est = E.DirectEstimator(dist, f, M, cv, cvm, is_log=is_log)
+            if case.get("cv_alias") and cv is not None:
+                cv = f        # the very same callable as control variate (its tables equal f's: see gen_audit_est)
+            est = _ctor(case, E.DirectEstimator, [("proposal", dist), ("func", f), ("mc_samples", M), ("cv", cv), ("cv_mean", cvm)],
+                        {"is_log": is_log} if (is_log or case.get("ctor") != "kw") else {})
             allb = _sample_tensor(case, list(range(nout)), B)
             res["ell"] = dist.log_prob(allb).detach().T.tolist()
         elif kind == "is":
@@ -288,12 +318,16 @@ def est_run_impl(case):
                 dist = _mkdist(case, th)
                 dens = dist if alias == "same" else _mkdist(case, th)
                 assert (dens is dist) == (alias == "same")
-            est = E.ImportanceSamplingEstimator(dist, f, M, dens, case["self_norm"], is_log=is_log)
+            est = _ctor(case, E.ImportanceSamplingEstimator,
+                        [("proposal", dist), ("func", f), ("mc_samples", M), ("density", dens), ("self_normalize", case["self_norm"])],
+                        {"is_log": is_log} if (is_log or case.get("ctor") != "kw") else {})
         else:
             raise ValueError(kind)
         vs = []
         for tup in itertools.product(range(nout), repeat=M):
             s = _sample_tensor(case, tup, B)
+            if case.get("slayout") and s.dim() >= 2:   # the proposal hands out a non-contiguous sample tensor
+                s = s.transpose(0, 1).contiguous().transpose(0, 1)
             dist.sample = lambda shape=torch.Size(), _s=s: _s
             vs.append(est().reshape(B))  # (is_log returns [1, B]: keepdim of the running maximum)
         res["kscale"] = _log_units(case, vs, S, B) if is_log else [0] * B
@@ -467,7 +501,10 @@ def enum_run_impl(case):
             th = _theta_tensor(case, "theta")  # [B, 1] or [B, 1, V]
             dist = _mkdist(case, th[:, 0], independent=False)
             f = _Table(case, "f", th, phi, independent=False, log=is_log)
-        est = E.EnumerateEstimator(dist, f, is_log=is_log) if is_log else E.EnumerateEstimator(dist, f)
+        if case.get("ctor") == "kw":
+            est = E.EnumerateEstimator(proposal=dist, func=f, is_log=is_log)
+        else:
+            est = E.EnumerateEstimator(dist, f, is_log=is_log) if is_log else E.EnumerateEstimator(dist, f)
         v = est()
         res["kscale"] = [0] * B
         if is_log:
@@ -548,9 +585,27 @@ def _patched(script):
 def _relaxed_dist(case, th):
     from pydrobert.torch import distributions as PD
 
-    if case["dtype"] == "bern":
-        return PD.LogisticBernoulli(**{case["param"]: th[:, 0]})
-    return PD.GumbelOneHotCategorical(**{case["param"]: th[:, 0]})
+    cls = PD.LogisticBernoulli if case["dtype"] == "bern" else PD.GumbelOneHotCategorical
+    par = th[:, 0]
+    B = par.shape[0]
+    ex = bool(case.get("expand")) and B > 1 and all(t == case["theta"][0] for t in case["theta"])
+    if ex:
+        # one row (all rows of this case are equal), expanded to the batch by the distribution's own expand();
+        # value = row 0, gradient with respect to EVERY row j = the gradient with respect to that one row
+        par = par.sum(0, keepdim=True) - (B - 1) * par[:1].detach()
+    va = {"validate_args": True} if case.get("validate") else {}
+    d = cls(**{case["param"]: par}, **va)
+    _touch(d, case.get("pre"))
+    if ex:
+        d = d.expand([B])
+        _touch(d, case.get("pre2"))
+    return d
+
+
+def _touch(d, which):
+    """call history of the lazily computed parameters: read `probs` and / or `logits` before anything else is done"""
+    for name in {"probs": ["probs"], "logits": ["logits"], "both": ["logits", "probs"], "both2": ["probs", "logits"]}.get(which, []):
+        getattr(d, name)
 
 
 class _CV:
@@ -590,7 +645,7 @@ def relaxed_run_impl(case):
     try:
         dist = _relaxed_dist(case, th)
         if case["kind"] == "st":
-            est = E.StraightThroughEstimator(dist, f, M, is_log=is_log)
+            est = _ctor(case, E.StraightThroughEstimator, [("proposal", dist), ("func", f), ("mc_samples", M)], {"is_log": is_log})
             script = [u]
         elif case["kind"] == "reparam":
             # ReparameterizationEstimator on the relaxed sample itself: func(z) = base + eta * w . sigma(z / temp) (> 0)
@@ -598,12 +653,39 @@ def relaxed_run_impl(case):
             script = [u]
         else:
             cv = _CV(case, eta)
-            est = E.RelaxEstimator(dist, f, M, _CV(case, eta, log=is_log), is_log=is_log)
+            est = _ctor(case, E.RelaxEstimator, [("proposal", dist), ("func", f), ("mc_samples", M), ("cv", _CV(case, eta, log=is_log))],
+                        {"is_log": is_log} if (is_log or case.get("ctor") != "kw") else {})
             script = [u, v]
         r, p1, p2 = _patched(script)
         with p1, p2:
             out = est()
         assert r.k == len(script)
+        res["rel_extra"] = []
+        if case.get("twice"):
+            # call history: the same estimator object again on the same uniforms, and a fresh object on the same distribution
+            r, p1, p2 = _patched(script)
+            with p1, p2:
+                out2 = est()
+            g1 = torch.autograd.grad(out.sum(), [th], retain_graph=True, allow_unused=True)[0]
+            g2 = torch.autograd.grad(out2.sum(), [th], retain_graph=True, allow_unused=True)[0]
+            res["rel_extra"].append(("the same estimator object called twice on the same uniforms returns the same value and gradient",
+                                     bool(torch.equal(out, out2)) and ((g1 is None and g2 is None) or
+                                                                      bool(torch.allclose(g1, g2, rtol=1e-12, atol=1e-14)))))
+        if case.get("cvp") and case["kind"] == "relax":
+            # optional state: the variance-minimising branch (proposal_params / cv_params given) only redirects the gradient of the
+            # control variate's parameters; the value and the gradient w.r.t. the distribution's parameters are those of the plain call
+            eta2 = eta.detach().clone().requires_grad_(True)    # (the branch hooks the gradient of its cv parameter: own leaf)
+            est2 = E.RelaxEstimator(dist, f, M, _CV(case, eta2, log=is_log), proposal_params=[th], cv_params=[eta2], is_log=is_log)
+            r, p1, p2 = _patched(script)
+            with p1, p2:
+                out2 = est2()
+            ga = torch.autograd.grad(out.sum(), [th, phi], retain_graph=True, allow_unused=True)
+            gb = torch.autograd.grad(out2.sum(), [th, phi], retain_graph=True, allow_unused=True)
+            same = bool(torch.allclose(out, out2, rtol=1e-12, atol=1e-12)) and all(
+                (a is None and b is None) or (a is not None and b is not None and bool(torch.allclose(a, b, rtol=1e-10, atol=1e-12)))
+                for a, b in zip(ga, gb))
+            res["rel_extra"].append(("RelaxEstimator with proposal_params / cv_params returns the value and the distribution-parameter "
+                                     "gradient of the plain estimator", same))
         if is_log:
             out = (out.reshape(B) - S).exp()   # see est_run_impl: the common log-offset is removed exactly
         # the pieces, recomputed with the distribution's own methods under the same uniforms
@@ -728,14 +810,28 @@ def imh_run_impl(case):
         if case["given"] is not None:
             init = torch.cat([_sample_tensor(case, [case["given"][j]], 1) for j in range(B)], 1)
             kw["initial_sample"] = init if case.get("given_lead", True) else init[0]
-        est = E.IndependentMetropolisHastingsEstimator(dist, f, N, dens, burn_in=case["burn"],
-                                                       initial_sample_tries=case["tries"], **kw)
+        if case.get("ctor") == "kw":
+            est = E.IndependentMetropolisHastingsEstimator(proposal=dist, func=f, mc_samples=N, density=dens, burn_in=case["burn"],
+                                                           initial_sample_tries=case["tries"], **kw)
+        elif case.get("ctor") == "pos":
+            est = E.IndependentMetropolisHastingsEstimator(dist, f, N, dens, case["burn"], kw.get("initial_sample"), case["tries"])
+        else:
+            est = E.IndependentMetropolisHastingsEstimator(dist, f, N, dens, burn_in=case["burn"],
+                                                           initial_sample_tries=case["tries"], **kw)
         us = (torch.tensor(case["us"], dtype=F64) / 64).reshape(N, B)
         r, p1, p2 = _patched([us])
         with p1, p2:
             v = est()
         res["out"] = [float(x) for x in v.reshape(-1)]
         res["calls"] = state["k"]
+        if case.get("twice"):
+            # call history: the same estimator object run again on the same proposals and uniforms (nothing may be carried over)
+            state["k"] = 0
+            r, p1, p2 = _patched([us])
+            with p1, p2:
+                v2 = est()
+            res["twice_same"] = [float(x) for x in v2.reshape(-1)] == res["out"] or (
+                all(math.isnan(a) == math.isnan(b) and (math.isnan(a) or a == b) for a, b in zip([float(x) for x in v2.reshape(-1)], res["out"])))
     except Exception as e:
         res["exc"] = exc_kind(e) + ": " + str(e)[:200]
     return res
@@ -969,6 +1065,26 @@ def _ints(t):
     return [[int(round(float(x))) for x in row] for row in t]
 
 
+CDT = {"i64": torch.int64, "i32": torch.int32, "f32": torch.float32, "f64": torch.float64}
+
+
+def _count_tensor(case, key):
+    """counts handed to the combinatorics functions: dtype (`cdtype`), memory layout (`clayout`: every second cell of a larger
+    buffer / a stride-0 broadcast of one value when all entries are equal) - the logical values are case[key]"""
+    vals = case[key]
+    t = torch.tensor(vals, dtype=CDT[case.get("cdtype", "i64")])
+    lay = case.get("clayout")
+    if lay == "expand" and len(vals) > 0 and len(set(vals)) == 1:
+        return t[:1].expand(len(vals))
+    if lay == "scalar" and len(set(vals)) == 1 and key in ("given",):
+        return t[0]                       # a 0-dim tensor that broadcasts against the other argument
+    if lay in ("step", "expand", "scalar") and len(vals) > 0:
+        big = torch.full([2 * len(vals) + 1], 3, dtype=t.dtype)
+        big[1::2] = t
+        return big[1::2]
+    return t
+
+
 def comb_run_impl(case):
     import pydrobert.torch.functional as PF
     from pydrobert.torch import distributions as PD
@@ -989,18 +1105,39 @@ def comb_run_impl(case):
                 state["t"] += 1
                 return b
 
+            tt, gt = _count_tensor(case, "total"), _count_tensor(case, "given")
+            keep = (tt.clone(), gt.clone())
+            out_arg = None if (case.get("none_out") and out == max(case["total"])) else out
             with mock.patch.object(torch, "bernoulli", fake_bernoulli):
                 if case.get("via") == "dist":
-                    d = PD.SimpleRandomSamplingWithoutReplacement(torch.tensor(case["given"]), torch.tensor(case["total"]),
-                                                                  out, validate_args=False)
+                    if case.get("kw"):
+                        d = PD.SimpleRandomSamplingWithoutReplacement(given_count=gt, total_count=tt, out_size=out_arg,
+                                                                      validate_args=False)
+                    else:
+                        d = PD.SimpleRandomSamplingWithoutReplacement(gt, tt, out_arg, validate_args=False)
                     b = d.sample()
+                elif case.get("kw"):
+                    b = PF.simple_random_sampling_without_replacement(total_count=tt, given_count=gt, out_size=out_arg)
+                elif out_arg is None:
+                    b = PF.simple_random_sampling_without_replacement(tt, gt)
                 else:
-                    b = PF.simple_random_sampling_without_replacement(torch.tensor(case["total"]), torch.tensor(case["given"]), out)
-            res["out"] = _ints(b)
+                    b = PF.simple_random_sampling_without_replacement(tt, gt, out_arg)
+            res["out"] = _ints(b.reshape(B, b.shape[-1]))
             res["steps"] = state["t"]
+            res["inputs_unchanged"] = bool(torch.equal(tt, keep[0]) and torch.equal(gt, keep[1]))
+            res["shape_ok"] = list(b.shape) == [B, out]
         elif op == "binom":
-            r = PF.binomial_coefficient(torch.tensor(case["lens"]), torch.tensor(case["cnts"]))
-            res["out"] = [int(x) for x in r]
+            lt, ct = _count_tensor(case, "lens"), _count_tensor(case, "cnts")
+            if case.get("outer"):           # broadcasting: a column of lengths against a row of counts
+                lt, ct = lt.unsqueeze(1), ct.unsqueeze(0)
+            keep = (lt.clone(), ct.clone())
+            fn = torch.jit.script(PF.binomial_coefficient) if case.get("script") else PF.binomial_coefficient
+            r = fn(length=lt, count=ct) if case.get("kw") else fn(lt, ct)
+            res["out"] = [int(x) for x in r.reshape(-1)]
+            r2 = fn(lt, ct)                 # call history: the same tensor objects again
+            res["inputs_unchanged"] = bool(torch.equal(lt, keep[0]) and torch.equal(ct, keep[1]))
+            res["twice_same"] = bool(torch.equal(r, r2))
+            res["shape_ok"] = list(r.shape) == ([len(case["lens"]), len(case["cnts"])] if case.get("outer") else [len(case["lens"])])
         elif op == "vocab":
             r = PF.enumerate_vocab_sequences(case["len"], case["V"])
             res["out"] = _ints(r)
@@ -1012,27 +1149,54 @@ def comb_run_impl(case):
             r = PF.enumerate_binary_sequences_with_cardinality(case["len"], case["cnt"])
             res["out"] = _ints(r)
         elif op == "card_tensor":
-            sup, binom = PF.enumerate_binary_sequences_with_cardinality(torch.tensor(case["lens"]), torch.tensor(case["cnts"]))
+            lt, ct = _count_tensor(case, "lens"), _count_tensor(case, "cnts")
+            keep = (lt.clone(), ct.clone())
+            if case.get("kw"):
+                sup, binom = PF.enumerate_binary_sequences_with_cardinality(length=lt, count=ct)
+            else:
+                sup, binom = PF.enumerate_binary_sequences_with_cardinality(lt, ct)
+            res["inputs_unchanged"] = bool(torch.equal(lt, keep[0]) and torch.equal(ct, keep[1]))
             res["binom"] = [int(x) for x in binom]
             res["out"] = [_ints(sup[j][:res["binom"][j]]) for j in range(len(case["lens"]))]
             res["shape"] = list(sup.shape)
         elif op == "srswor_dist":
             T, L, O = case["total"], case["given"], case["out_size"]
             d = PD.SimpleRandomSamplingWithoutReplacement(L, T, O)
+            if case.get("pre_lp"):
+                d.log_partition          # call history: the lazily computed log-partition is read before expand()
+            ex = case.get("expand")
+            if ex:
+                d = d.expand([2])        # two equal batch elements through the distribution's own expand()
             sup = d.enumerate_support()
+            lp = d.log_prob(sup)
+            if ex:
+                res["expand_rows_equal"] = bool(torch.equal(sup[:, 0], sup[:, 1]) and torch.equal(lp[:, 0], lp[:, 1]))
+                chk_sup = d.support.check(sup)[:, 0]
+                sup, lp = sup[:, 0], lp[:, 0]
+            else:
+                chk_sup = d.support.check(sup)
             res["support"] = _ints(sup)
-            res["probs"] = [float(x) for x in d.log_prob(sup).exp().reshape(-1)]
-            res["check_support"] = [bool(x) for x in d.support.check(sup).reshape(-1)]
+            res["probs"] = [float(x) for x in lp.exp().reshape(-1)]
+            res["check_support"] = [bool(x) for x in chk_sup.reshape(-1)]
             torch.manual_seed(case["seed"])
             smp = d.sample([case["nsamp"]])
+            chk_smp = d.support.check(smp)
+            smp = smp.reshape(-1, smp.shape[-1])
             res["samples"] = _ints(smp)
-            res["check_samples"] = [bool(x) for x in d.support.check(smp).reshape(-1)]
+            res["check_samples"] = [bool(x) for x in chk_smp.reshape(-1)]
             bad = torch.tensor(case["bad"], dtype=torch.float)
-            res["check_bad"] = [bool(x) for x in d.support.check(bad).reshape(-1)] if len(case["bad"]) else []
+            if ex and len(case["bad"]):
+                cb_ = d.support.check(bad.unsqueeze(1).expand(-1, 2, -1))
+                res["expand_rows_equal"] = res["expand_rows_equal"] and bool(torch.equal(cb_[:, 0], cb_[:, 1]))
+                res["check_bad"] = [bool(x) for x in cb_[:, 0].reshape(-1)]
+            else:
+                res["check_bad"] = [bool(x) for x in d.support.check(bad).reshape(-1)] if len(case["bad"]) else []
         else:
             raise ValueError(op)
     except Exception as e:
         res["exc"] = exc_kind(e) + ": " + str(e)[:160]
+        if type(e).__name__ == "Error" and type(e).__module__.startswith("torch.jit") and "builtins.RuntimeError:" in str(e):
+            res["exc"] = "RuntimeError: (TorchScript) " + str(e).split("builtins.RuntimeError:")[-1].strip()[:120]
     return res
 
 
@@ -1061,11 +1225,18 @@ def comb_terms(case, res):
                       f"(Some {clz_(res['out'][j])})")
             st.append(f"srswor_okb {cz(case['total'][j])} {cz(case['given'][j])} {cn(out)} {clz_(res['out'][j])}")
         rel.append(("one bernoulli call per step", res["steps"] == out))
+        rel.append(("sampler leaves its count tensors as they were and returns shape (batch, out_size)",
+                    res["inputs_unchanged"] and res["shape_ok"]))
     elif op == "binom":
+        lens, cnts = case["lens"], case["cnts"]
+        if case.get("outer"):
+            lens, cnts = [n for n in case["lens"] for _ in case["cnts"]], [k for _ in case["lens"] for k in case["cnts"]]
         impl = "None" if res["exc"] is not None else f"(Some {clz_(res['out'])})"
-        mt.append(f"opt_eqb zlist_eqb (binomial_coefficient {clz_(case['lens'])} {clz_(case['cnts'])}) {impl}")
+        mt.append(f"opt_eqb zlist_eqb (binomial_coefficient {clz_(lens)} {clz_(cnts)}) {impl}")
         if res["exc"] is None:
-            rel.append(("binomial == math.comb", res["out"] == [math.comb(n, k) for n, k in zip(case["lens"], case["cnts"])]))
+            rel.append(("binomial == math.comb", res["out"] == [math.comb(n, k) for n, k in zip(lens, cnts)]))
+            rel.append(("binomial_coefficient leaves its inputs as they were, returns the broadcast shape, and gives the same "
+                        "result when called again on the same tensors", res["inputs_unchanged"] and res["shape_ok"] and res["twice_same"]))
         else:
             rel.append(("raises only on negative input", any(x < 0 for x in case["lens"] + case["cnts"])))
     elif op in ("vocab", "binary", "card_int"):
@@ -1093,6 +1264,7 @@ def comb_terms(case, res):
             # valid part: rows of length n with k ones, padded to length_
             st.append(f"enum_card_okb {cz(n)} {cz(k)} {cn(length_)} {cllz(res['out'][j])}")
         rel.append(("shape", res["shape"] == [len(case["lens"]), max(res["binom"]), length_]))
+        rel.append(("inputs left as they were", res["inputs_unchanged"]))
     elif op == "srswor_dist":
         if res["exc"] is not None:
             return ["false"], ["false"], rel
@@ -1113,6 +1285,9 @@ def comb_terms(case, res):
         rel.append(("probabilities over the enumerated support sum to one", abs(sum(res["probs"]) - 1) <= 1e-4))
         rel.append(("support.check accepts the enumerated support and the samples",
                     all(res["check_support"]) and all(res["check_samples"])))
+        if "expand_rows_equal" in res:
+            rel.append(("expand(): both batch elements have the support and probabilities of the unexpanded distribution",
+                        res["expand_rows_equal"]))
     return mt, st, rel
 
 
@@ -1659,7 +1834,7 @@ def evaluate(case):
         if k in ("st", "relax", "reparam"):
             res = relaxed_run_impl(case)
             mt, st = relaxed_terms(case, res)
-            rel = [("no exception", res["exc"] is None)]
+            rel = [("no exception", res["exc"] is None)] + list(res.get("rel_extra", []))
             if res["exc"] is None and k != "reparam":
                 rel += _relaxed_value_relation(case, res)
             return dict(model=mt, spec=st, rel=rel, unique=(k != "relax"), impl={"exc": res["exc"], "out": res.get("out")})
@@ -1667,6 +1842,9 @@ def evaluate(case):
         rel = []
         if case["same"]:
             rel = _imh_same_relation(case, res)
+        if "twice_same" in res:
+            rel.append(("the same Metropolis-Hastings estimator object run twice on the same proposals and uniforms returns the same "
+                        "estimate", res["twice_same"]))
         return dict(model=[imh_model_term(case, res)], spec=[], rel=rel, unique=False,
                     impl={"exc": res["exc"], "out": res.get("out"), "calls": res["calls"]})
     if fam == "dist":
@@ -1840,10 +2018,148 @@ def gen_cases(chk):
         c = gen_dist_extreme(rng)
         c["stream"] = "extreme"
         cases.append(c)
+    under = []
     for i in range(2 if quick else 12):
         c = gen_is_underflow(rng)
         c["stream"] = "extreme"
+        under.append(c)
+    cases += gen_audit(chk, rng)    # robustness audit (drawn last)
+    for i, c in enumerate(under):
         cases.insert(i * 7, c)   # (their Coq terms are slow: spread over the first shards, which are scheduled first)
+    return cases
+
+
+# ----------------------------------------------------------------------------------------
+# robustness audit: entry point (keyword / positional constructors, scripted functions), memory layout and dtype of the
+# parameter / count tensors, call history (lazy probs / logits read before use, expand(), the same object called again),
+# optional state (validate_args, proposal_params / cv_params), boundary situations named by the independent review
+# ----------------------------------------------------------------------------------------
+def vary_est(rng, c):
+    k = c["kind"]
+    c["ctor"] = rng.choice(["kw", "pos", None])
+    c["playout"] = rng.choice(["step", "off", "tct", None])
+    c["validate"] = rng.random() < 0.5
+    if k in ("direct", "is"):
+        c["slayout"] = rng.random() < 0.5
+    if k in ("st", "relax", "reparam"):
+        c["pre"] = rng.choice([None, "probs", "logits", "both", "both2"])
+        c["twice"] = rng.random() < 0.6
+        if k == "relax":
+            c["cvp"] = rng.random() < 0.5
+        if c["B"] == 2 and rng.random() < 0.5:
+            c["theta"][1] = json.loads(json.dumps(c["theta"][0]))
+            c["expand"] = True
+            c["pre2"] = rng.choice([None, "probs", "logits"])
+    if k == "imh":
+        c["twice"] = rng.random() < 0.7
+    return c
+
+
+def gen_audit_est(rng, quick):
+    """the situations named by the latest review, each with a fair share:
+    relax-neg   RelaxEstimator, is_log=False, whose per-call Monte-Carlo average is NEGATIVE (f negative everywhere, or a strong
+                control variate with a single sample)
+    direct-cv   DirectEstimator with a sample-dependent control variate whose cv_mean is differentiable w.r.t. the
+                distribution's parameters (value AND gradient judged), incl. cv IS func (the same callable)
+    relaxed     Straight-through / RELAX on LogisticBernoulli / GumbelOneHotCategorical built from logits= and from probs=,
+                with the other parameterisation read lazily before or after, expand()ed, validate_args on
+    is-same     importance sampling whose proposal IS the density object"""
+    what = rng.choice(["relax-neg", "relax-neg", "direct-cv", "direct-cv", "relaxed", "relaxed", "is-same", "imh", "imh", "enum", "direct"])
+    if what == "relax-neg":
+        c = gen_est(rng, "relax", small=quick)
+        nout = c["V"]
+        if rng.random() < 0.5:
+            c["fC"] = [[rng.randint(-12, -2) for _ in range(nout)] for _ in range(c["B"])]
+            c["fA"] = [[[0] * len(r) for r in row] for row in c["fA"]]
+            c["fP"] = [[0] * nout for _ in range(c["B"])]
+        else:
+            c["M"] = 1
+            m = c["B"] * (1 if c["dtype"] == "bern" else c["V"])
+            c["u"], c["v"] = c["u"][:m], c["v"][:m]
+            c["eta"] = rng.choice([-6, 5, -6])
+            c["cw"] = [rng.choice([-8, 8, 7]) for _ in range(c["B"])] if c["dtype"] == "bern" else \
+                [[rng.choice([-8, 8, 7, 0]) for _ in range(c["V"])] for _ in range(c["B"])]
+            c["temp"] = rng.choice([1, 2])
+    elif what == "direct-cv":
+        c = gen_est(rng, "direct", small=quick)
+        c["cv"] = True
+        if rng.random() < 0.25:   # cv is func: the same callable, the estimate is then cv_mean for every sample
+            c["cv_alias"] = True
+            for k in ("C", "A", "P"):
+                c["c" + k] = json.loads(json.dumps(c["f" + k]))
+    elif what == "relaxed":
+        c = gen_est(rng, rng.choice(["st", "relax", "relax"]), small=quick)
+        c["param"] = rng.choice(["logits", "logits", "probs"])
+        if c["param"] == "logits":
+            c["fA"] = [[[0] * len(r) for r in row] for row in c["fA"]]
+    elif what == "is-same":
+        c = gen_est(rng, "is", small=quick)
+        c["alias"] = "same"
+        c["qtheta"] = c["theta"]
+    else:
+        c = gen_est(rng, what, small=quick)
+    if c.get("dtype") == "srswor":
+        c["ctor"] = rng.choice(["kw", None])
+        return c
+    return vary_est(rng, c)
+
+
+def gen_audit_dist(rng):
+    c = gen_dist(rng)
+    c["pre"] = rng.choice([None, "probs", "logits", "both", "both2"])
+    c["playout"] = rng.choice(["step", "off", "tct", None])
+    c["validate"] = rng.random() < 0.5
+    if c["B"] == 2 and rng.random() < 0.6:
+        c["theta"][1] = json.loads(json.dumps(c["theta"][0]))
+        c["expand"] = True
+        c["pre2"] = rng.choice([None, "probs", "logits"])
+        if not _dist_margin_ok(c):
+            c.pop("expand")
+    return c
+
+
+def gen_audit_comb(rng):
+    op = rng.choice(["srswor", "srswor", "srswor", "binom", "binom", "binom", "card_tensor", "srswor_dist", "srswor_dist", "srswor_dist"])
+    c = gen_comb(rng, op)
+    c["kw"] = rng.random() < 0.4
+    if op == "srswor":
+        B = len(c["total"])
+        c["cdtype"] = rng.choice(["i64", "i32", "f32", "f64"])
+        c["clayout"] = rng.choice([None, "step", "expand", "scalar"])
+        c["none_out"] = rng.random() < 0.5
+        legal = all(g <= t for g, t in zip(c["given"], c["total"])) and c["out_size"] >= max(c["total"])
+        if legal and c["clayout"] == "expand":
+            c["total"] = [max(c["total"])] * B
+            c["out_size"] = max(c["out_size"], c["total"][0])
+        if legal and c["clayout"] == "scalar":
+            c["given"] = [min(c["given"] + c["total"])] * B
+        c["us"] = [[rng.randint(0, 63) for _ in range(B)] for _ in range(max(c["out_size"], 1))]
+    elif op == "binom":
+        c["clayout"] = rng.choice([None, "step", "expand"])
+        c["script"] = rng.random() < 0.4
+        if rng.random() < 0.4:
+            c["outer"] = True
+            c["lens"], c["cnts"] = c["lens"][:3], c["cnts"][:rng.randint(1, 3)]
+    elif op == "card_tensor":
+        c["clayout"] = rng.choice([None, "step", "expand"])
+    else:
+        c["pre_lp"] = rng.random() < 0.5
+        c["expand"] = rng.random() < 0.6
+    return c
+
+
+def gen_audit(chk, rng):
+    quick = chk.tier != "thorough"
+    n_est, n_dist, n_comb = (40, 24, 80) if quick else (320, 200, 640)
+    cases = []
+    for _ in range(n_est):
+        cases.append(gen_audit_est(rng, quick))
+    for _ in range(n_dist):
+        cases.append(gen_audit_dist(rng))
+    for _ in range(n_comb):
+        cases.append(gen_audit_comb(rng))
+    for c in cases:
+        c["stream"] = "audit"
     return cases
 
 
@@ -1899,6 +2215,17 @@ def run(chk, cases=None):
         for opt in ("param", "M", "B", "is_log", "cv", "self_norm", "same", "alias"):
             if opt in c:
                 chk.count(f"{opt}={c[opt]}")
+        if stream == "audit":
+            chk.count("audit:" + _key(c))
+            for opt in ("ctor", "playout", "validate", "slayout", "pre", "pre2", "expand", "twice", "cvp", "cv_alias", "kw", "cdtype",
+                        "clayout", "none_out", "script", "outer", "pre_lp"):
+                if opt in c:
+                    chk.count("audit.%s=%s" % (opt, c[opt]))
+        if c["fam"] == "est" and c.get("kind") == "relax" and not c.get("is_log") and isinstance(ev["impl"].get("out"), list):
+            for row in ev["impl"]["out"]:
+                chk.count("relax.estimate_sign=" + ("negative" if row[0] < 0 else "non-negative"))
+        if c["fam"] == "est" and c.get("kind") == "direct" and c.get("cv"):
+            chk.count("direct.cv=sample-dependent,differentiable-mean")
         if stream == "extreme":
             chk.count("extreme:" + _key(c))
             for opt in ("pexp", "qexp", "fexp", "lext", "zrel"):
